@@ -15,7 +15,7 @@ RULE = ("Hypothesis draws a process set (general model grammar of C01) and two o
         "transition carries the rate, Transition with its own rate in event=, legacy transition=/birth_death= lists, incremental add_event / "
         "add_transition / add_birth_death), births re-declared by origin instead of destination and vice versa, space- or comma-separated "
         "string declarations, and a generated permutation of the processes, with the constructor arguments wrapped as lists, tuples, or (1 case in 4) a lone "
-        "birth_death= / ode= entry handed over as the bare Transition object the setters accept; plus the whole model entered as explicit ode= strings. "
+        "birth_death= / ode= entry handed over as the bare Transition object the setters accept; in a quarter of the cases the variant is built from Event / legacy Transition objects that already served to build (and evaluate) another model; plus the whole model entered as explicit ode= strings. "
         "Oracle (metamorphic): get_ode_eqn() of the variants differ by an expression that expands to 0 (30-digit numeric fallback), ode, "
         "jacobian and grad agree at 3 generated points (rtol 1e-10), eventRateVector and vMat agree up to the known permutation of events. "
         "Non-trivial = >=3 processes, >=2 different routes used and a birth present; distinct by (model, routes, permutation) hash.")
@@ -65,6 +65,7 @@ def strategy(tier):
                 elif routes[i] == "legacy":
                     routes[i] = "add_legacy"
         return {"model": m, "routes": routes, "perm": perm, "container": container,
+                "shared_objects": draw(st.integers(0, 3)) == 0,
                 "state_style": draw(st.sampled_from(["list", "space", "comma", "tuples"])),
                 "param_style": draw(st.sampled_from(["list", "space", "comma"])),
                 "flip_births": draw(st.booleans()),
@@ -98,7 +99,14 @@ def oracle(case, rec):
     except Exception as e:
         raise PropertyViolation("C12/construct-baseline/" + type(e).__name__, "baseline raised %r" % (e,), case)
     try:
-        builds["variant"] = render.build(var_m, case["routes"], case["perm"], container=case.get("container", "list"))
+        shared = {} if case.get("shared_objects") else None
+        if shared is not None:
+            # the same Event / legacy Transition objects were first used to build another model, which was also evaluated
+            other, _o = render.build(var_m, case["routes"], case["perm"], pool=shared)
+            other.parameters = case["points"][0]["theta"]
+            other.ode(case["points"][0]["x"], case["points"][0]["t"])
+            rec.label("objects-shared-with-an-earlier-model")
+        builds["variant"] = render.build(var_m, case["routes"], case["perm"], container=case.get("container", "list"), pool=shared)
     except Exception as e:
         raise PropertyViolation("C12/construct-variant/" + type(e).__name__, "variant (routes %s) raised %r" % (case["routes"], e), case)
     try:
